@@ -36,7 +36,7 @@ func TestCLIPrintBack(t *testing.T) {
 			if rapid.IntRange(0, 4).Draw(rt, "bytelevel") == 0 {
 				src, _ = inputs.Any(rt)
 			} else {
-				c := progs.Draw(rt, v, progs.Options(v), 1, 4)
+				c := progs.Draw(rt, v, progs.StructuralOptions(v), 1, 4)
 				pol := progs.Policy(rt, phpgen.PolicyFull, nil)
 				pol.Shebang = rapid.IntRange(0, 5).Draw(rt, "shebang") == 0
 				src = append([]byte{}, c.G.Render(c.Root, pol).Src...)
